@@ -2,8 +2,10 @@
 //   D  cast5_conf_enc/dec     real round code (f1/f2/f3 macros) on an ARBITRARY state vs RFC 2144 2.2 rounds (12 / 16)
 //   D  cast5_roundtrip_*      on an arbitrary state
 //   L  cast5_half_schedule    schedule::key_schedule (one half: 16 of the 32 K_i, macro-expanded) vs the RFC's formulas
-//                             interpreted from index tables, all 2^128 running values x0..xF (the full two-half schedule in one
-//                             query exhausted 12 GB in earlier probing)
+//                             interpreted from index tables, all 2^128 running values x0..xF.  THOROUGH tier only (mem=30): the
+//                             function is 24,741 straight-line GOTO instructions and goto-instrument's
+//                             --ensure-one-backedge-per-target pass (dominator sets, quadratic in straight-line length)
+//                             needs ~15 GB for it, whatever the harness does; 14 GB (quick tier) is not enough.
 //   W  cast5_new_w            Cast5::new_from_slice for key length symbolic: acceptance 5..=16, zero padding, small_key,
 //                             chaining of the two half schedules, masking = K1..K16, rotate = K17..K32 & 31; the half
 //                             schedule is replaced per call index by pre-drawn arbitrary results shared with the oracle
@@ -31,7 +33,7 @@ fn n_rounds(c: &Cast5) -> usize {
     }
 }
 
-//@ harness name=cast5_conf_enc prop=C09,C20 tier=quick bits=705 est=200 desc="D: encrypt_block on an arbitrary state (masking, rotate: any bytes, small_key) == RFC 2144 encryption with 12 (small_key) or 16 rounds, f1/f2/f3 types per round, all blocks; S-box indices in range, no overflow"
+//@ harness name=cast5_conf_enc prop=C09,C20 tier=thorough bits=705 est=2500 solver=kissat desc="D: encrypt_block on an arbitrary state (masking, rotate: any bytes, small_key) == RFC 2144 encryption with 12 (small_key) or 16 rounds, f1/f2/f3 types per round, all blocks; S-box indices in range, no overflow"
 verif_harness! {
     name: cast5_conf_enc,
     bytes: 89,
@@ -44,7 +46,7 @@ verif_harness! {
     }
 }
 
-//@ harness name=cast5_conf_dec prop=C09,C20 tier=quick bits=705 est=200 desc="D: decrypt_block on an arbitrary state == RFC 2144 decryption (round keys in reverse order, 12 or 16 rounds), all blocks"
+//@ harness name=cast5_conf_dec prop=C09,C20 tier=thorough bits=705 est=2500 desc="D: decrypt_block on an arbitrary state == RFC 2144 decryption (round keys in reverse order, 12 or 16 rounds), all blocks"
 verif_harness! {
     name: cast5_conf_dec,
     bytes: 89,
@@ -57,7 +59,7 @@ verif_harness! {
     }
 }
 
-//@ harness name=cast5_roundtrip_ed prop=C01 tier=quick bits=705 est=200 desc="D: decrypt_block(encrypt_block(b)) == b on an arbitrary state (superset of all accepted keys, both round counts), all blocks"
+//@ harness name=cast5_roundtrip_ed prop=C01,C20 tier=quick bits=705 est=200 solver=kissat cap=3600 desc="D: decrypt_block(encrypt_block(b)) == b on an arbitrary state (superset of all accepted keys, both round counts), all blocks"
 verif_harness! {
     name: cast5_roundtrip_ed,
     bytes: 89,
@@ -71,7 +73,7 @@ verif_harness! {
     }
 }
 
-//@ harness name=cast5_roundtrip_de prop=C01 tier=quick bits=705 est=200 desc="D: encrypt_block(decrypt_block(b)) == b on an arbitrary state, all blocks"
+//@ harness name=cast5_roundtrip_de prop=C01,C20 tier=quick bits=705 est=200 cap=3600 desc="D: encrypt_block(decrypt_block(b)) == b on an arbitrary state, all blocks"
 verif_harness! {
     name: cast5_roundtrip_de,
     bytes: 89,
@@ -85,7 +87,7 @@ verif_harness! {
     }
 }
 
-//@ harness name=cast5_half_schedule prop=C09,C20 tier=quick bits=256 est=250 desc="L: schedule::key_schedule(x, z, k) == the sixteen K_i and the updated x0..xF of RFC 2144 2.4 (formulas interpreted from index tables), for all 2^128 x and arbitrary incoming z (outputs do not depend on it); get_i! indices in range"
+//@ harness name=cast5_half_schedule prop=C09,C20 tier=thorough bits=256 est=900 mem=30 desc="L: schedule::key_schedule(x, z, k) == the sixteen K_i and the updated x0..xF of RFC 2144 2.4 (formulas interpreted from index tables), for all 2^128 x and arbitrary incoming z (outputs do not depend on it); get_i! indices in range"
 verif_harness! {
     name: cast5_half_schedule,
     bytes: 32,
